@@ -15,11 +15,16 @@ CATALOGUE = {
     # the same equation and group order as T263 with another base point (7 G): a different curve object for every
     # purpose that involves the generator (key agreement, signatures)
     "T263g": (263, -3, 1, 257, "7*T263", 1),
+    # T43 whose base point object is handed to the library in a projective scaling with Z = 5 (see GEN_Z)
+    "T43z": (43, 0, 7, 31, (2, 12), 1),
     # cofactor curves: generator found at import time (a point of order n)
     "Th2": (257, 2, 6, 139, None, 2),
     "Th4": (257, 1, 8, 67, None, 4),
     "Th4c": (257, 1, 14, 59, None, 4),
 }
+
+
+GEN_Z = {"T43z": 5}
 
 
 # ---------------------------------------------------------------- textbook affine arithmetic (inputs only)
@@ -91,7 +96,8 @@ def lib_curve(ecdsa, cid, fresh=False):
         return _curves[key]
     p, a, b, n, G, h = params(cid)
     cf = ellipticcurve.CurveFp(p, a, b, h)
-    gen = ellipticcurve.PointJacobi(cf, G[0], G[1], 1, n, generator=True)
+    z = GEN_Z.get(cid, 1)
+    gen = ellipticcurve.PointJacobi(cf, G[0] * z * z % p, G[1] * z * z * z % p, z, n, generator=True)
     oid = (1, 3, 9999, 1, sorted(CATALOGUE).index(cid) + 1)
     c = curves.Curve(cid, cf, gen, oid, None)
     if not fresh:
